@@ -230,7 +230,12 @@ func DeepCast(val Value, typ ast.Type, span errors.Span, allowCasts bool) (*Valu
 		// otherwise, the inner type must also match
 		return DeepCast(*opt.Inner, optType, span, allowCasts)
 	case ClosureValueKind, FunctionValueKind, BuiltinFunctionValueKind:
-		panic("Unreachable, the analyzer prevents this")
+		// Reachable through `any`: a function stored in an any-object and cast when it is read back.
+		return nil, NewRuntimeErr(
+			fmt.Sprintf("Incompatible values: a value of type '%s' is not compatible with a value of type '%s'", val.Kind(), typ),
+			CastErrorKind,
+			span,
+		)
 	case NullValueKind:
 		switch typ.Kind() {
 		case ast.NullTypeKind:
